@@ -569,8 +569,14 @@ func appendKey(b *bytes.Buffer, v px.Value) {
 		// The name is delimited, and so is each parameter (see appendTypeParamKey)
 		appendElementKey(b, stringValue(pt.Name()))
 		if ppt, ok := pt.(px.ParameterizedType); ok {
-			for _, p := range ppt.Parameters() {
-				appendTypeParamKey(b, p)
+			switch pt.(type) {
+			case *VariantType, *EnumType, *PatternType:
+				// Equals compares the members of these types as a set of a given size, and so must the key
+				appendUnorderedTypeParamKeys(b, ppt.Parameters())
+			default:
+				for _, p := range ppt.Parameters() {
+					appendTypeParamKey(b, p)
+				}
 			}
 		}
 	} else if hk, ok := v.(px.HashKeyValue); ok {
@@ -583,6 +589,11 @@ func appendKey(b *bytes.Buffer, v px.Value) {
 // appendElementKey appends the key of an element of a container preceded by its length so that the keys of
 // two containers are equal only when their elements have equal keys, one by one.
 func appendElementKey(b *bytes.Buffer, v px.Value) {
+	appendDelimited(b, elementKey(v))
+}
+
+// elementKey answers the key of an element of a container, not yet delimited.
+func elementKey(v px.Value) []byte {
 	eb := bytes.NewBuffer(make([]byte, 0, 16))
 	if _, ok := v.(stringValue); ok {
 		// The key of a string is the raw string only at top level (Get4 and friends rely on that). Within a
@@ -591,9 +602,30 @@ func appendElementKey(b *bytes.Buffer, v px.Value) {
 		eb.WriteByte(HkString)
 	}
 	appendKey(eb, v)
+	return eb.Bytes()
+}
+
+func appendDelimited(b *bytes.Buffer, key []byte) {
 	var lb [binary.MaxVarintLen64]byte
-	b.Write(lb[:binary.PutUvarint(lb[:], uint64(eb.Len()))])
-	b.Write(eb.Bytes())
+	b.Write(lb[:binary.PutUvarint(lb[:], uint64(len(key)))])
+	b.Write(key)
+}
+
+// appendUnorderedTypeParamKeys appends the number of parameters followed by the distinct keys of the parameters in
+// ascending order: the key of a type whose Equals method compares the parameters as a set of a given size (the members
+// of a Variant, the values of an Enum, the patterns of a Pattern) does not depend on the order they were given in.
+func appendUnorderedTypeParamKeys(b *bytes.Buffer, params []px.Value) {
+	keys := make([]string, len(params))
+	for i, p := range params {
+		keys[i] = string(elementKey(p))
+	}
+	sort.Strings(keys)
+	appendElementKey(b, integerValue(len(params)))
+	for i, k := range keys {
+		if i == 0 || k != keys[i-1] {
+			appendDelimited(b, []byte(k))
+		}
+	}
 }
 
 // Special hash key generation for type parameters which might be hashes
